@@ -13,6 +13,8 @@ using namespace asmjit;
 
 namespace {
 
+extern JitRuntime g_rt;
+
 struct World {
   std::vector<uint8_t> static_mem;
   std::unique_ptr<CodeHolder> code;
@@ -23,6 +25,7 @@ struct World {
   StringLogger hlog;
   StringLogger elog[4];
   std::vector<std::vector<uint8_t>*> noise;
+  std::vector<void*> jit_ptrs;            // what `jitadd` got from the JitRuntime (released with the world)
   std::vector<uint32_t> func_labels;      // entry labels of the functions added by `prog … func*`, in order
 
   BaseEmitter* em(size_t i) {
@@ -43,6 +46,8 @@ struct World {
     noise.clear();
     static_mem.clear();
     func_labels.clear();
+    for (void* p : jit_ptrs) g_rt.release(p);
+    jit_ptrs.clear();
   }
 
   void create(bool use_static, size_t static_size, bool use_a64) {
@@ -72,6 +77,7 @@ struct World {
   }
 };
 
+JitRuntime g_rt;
 World W;
 const char* kComment = "verif-inline-comment";
 
@@ -121,6 +127,12 @@ std::string dump() {
   CodeHolder& code = *W.code;
   std::string c = "code|";
   c += code.is_initialized() ? (code.arch() == Arch::kX64 ? "x64" : code.arch() == Arch::kX86 ? "x86" : code.arch() == Arch::kAArch64 ? "a64" : "arch?") : "uninit";
+  // base address (a JitRuntime address is not reproducible: it is printed as `jit`)
+  {
+    bool is_jit = false;
+    for (void* p : W.jit_ptrs) is_jit |= uint64_t(uintptr_t(p)) == code.base_address();
+    c += ";base=" + (!code.has_base_address() ? std::string("none") : is_jit ? std::string("jit") : num(code.base_address()));
+  }
   // sections
   c += ";secs=";
   for (Section* s : code.sections()) {
@@ -455,7 +467,9 @@ std::string step(const std::string& line) {
 
   if (op == "init") {
     Environment env(w.size() > 1 && w[1] == "x86" ? Arch::kX86 : w.size() > 1 && w[1] == "a64" ? Arch::kAArch64 : Arch::kX64);
-    return err_name(code.init(env));
+    uint64_t base = Globals::kNoBaseAddress;
+    if (w.size() > 2 && !vh::parse_hex(w[2], base)) return "bad-op";
+    return err_name(code.init(env, base));
   }
   if (op == "reset" || op == "reinit") W.func_labels.clear();
   if (op == "reset") { code.reset(w.size() > 1 && w[1] == "hard" ? ResetPolicy::kHard : ResetPolicy::kSoft); return "ok"; }
@@ -473,6 +487,14 @@ std::string step(const std::string& line) {
     return "ok";
   }
   if (op == "dump") return dump();
+  if (op == "jitadd") {
+    // the documented end of "code generation as usual": JitRuntime::add() flattens, relocates to the address it allocated
+    // (which stores that address in the holder) and copies the code
+    void* p = nullptr;
+    Error err = g_rt.add(&p, &code);
+    if (err == Error::kOk && p) W.jit_ptrs.push_back(p);
+    return err_name(err);
+  }
   if (op == "link") {
     // flatten + resolve + relocate to a base address: the section buffers (and the address table) get their final content
     uint64_t base = 0x10000;
